@@ -127,13 +127,24 @@ func lrGrammarGen(stateful, throw bool) *rapid.Generator[*Grammar] {
 				seq := &Expr{K: KSeq, Sub: []*Expr{first}}
 				// operator: a consuming terminal, then operands
 				seq.Sub = append(seq.Sub, c.consuming())
-				if c.cfg.StateBlocks && c.chance(30, "tailstate") {
-					seq.Sub = append(seq.Sub, c.stateBlock())
+				tailState := c.cfg.StateBlocks && c.chance(40, "tailstate")
+				if tailState {
+					// ( L t #{..} operand ): the block runs, the operand may still fail - in the final,
+					// discarded attempt too (a dangling operator)
+					sb := c.stateBlock()
+					if c.chance(40, "tailstateapp") {
+						// a value changed in place (the Cloner list)
+						sb.Ops = append(sb.Ops, StateOp{Op: "app", Key: "l", Val: c.intn(0, 9, "tailappval")})
+					}
+					seq.Sub = append(seq.Sub, sb)
 				}
 				if c.chance(15, "tailpred") {
 					seq.Sub = append(seq.Sub, &Expr{K: KAndCode, ID: c.id()})
 				}
 				nOp := c.intn(0, 2, "noperands")
+				if tailState && nOp == 0 {
+					nOp = 1
+				}
 				for j := 0; j < nOp; j++ {
 					op := next0()
 					if c.chance(60, "oplabel") {
